@@ -109,6 +109,9 @@ impl Client {
                     .collect::<Result<Vec<_>, _>>()
                     .map_err(|_| VaultError::CouldNotDeserializeVaultScratchPad(scratch_address))?;
 
+                // discard versions that are not owned by the requested key or not validly signed by it
+                pads.retain(|s| s.owner() == &client_pk && s.is_valid());
+
                 // take the latest versions
                 pads.sort_by_key(|s| s.count());
                 let max_version = pads.last().map(|p| p.count()).unwrap_or_else(|| {
@@ -139,6 +142,14 @@ impl Client {
                 return Err(e)?;
             }
         };
+
+        // never hand out a scratchpad that its owner did not sign: holders are not trusted
+        if pad.owner() != &client_pk || !pad.is_valid() {
+            error!("Got a scratchpad for {scratch_key:?} that is not owned or not validly signed by the requested key");
+            return Err(VaultError::CouldNotDeserializeVaultScratchPad(
+                scratch_address,
+            ));
+        }
 
         Ok(pad)
     }
